@@ -355,8 +355,9 @@ class World:
                 calls.append(("edge", ci))
                 rv = rv.edge(vals)
             elif kind == "loc":
-                calls.append(("loc", float(step[1])))
-                rv = rv.loc(float(step[1]))
+                at_ = step[1] if (step[1] == "all" or isinstance(step[1], list)) else float(step[1])
+                calls.append(("loc", at_))
+                rv = rv.loc(at_)
             else:
                 raise HarnessError(f"bad view step {step}")
 
